@@ -254,8 +254,13 @@ def _check_window(chk, r1, r2, r3, fname: str, side: str, err_name: str):
     chk.note(f"{fname}: non-interference slice visited {visited} definitions; unbounded reads of the input in the slice: {sorted(flagged)}") if hasattr(chk, "note") else None
     # no row source other than `data`
     for c in calls_in(fi.node):
+        def _is_plain_list(recv, at):
+            if not isinstance(recv, ast.Name):
+                return False
+            vals = [rd.value_of(d) for d in rd.reaching(at, recv.id)]
+            return bool(vals) and all(isinstance(v, ast.List) or (isinstance(v, ast.Call) and unparse(v.func) == "list") for v in vals)
         if unparse(c.func) in ("pd.concat", "pd.merge") or (isinstance(c.func, ast.Attribute) and c.func.attr in ("append", "join", "merge", "combine_first", "reindex") and
-                                                            unparse(c.func.value) not in ("warnings",)):
+                                                            not _is_plain_list(c.func.value, fi.module.enclosing_stmt(c))):
             r1.require(False, f"{fi.key}|row-source:{unparse(c.func)}", fi.where(c), f"{fname}: `{unparse(c)[:60]}` can contribute rows that are not a slice of the input")
     r1.inst(f"{fi.key}|no-other-row-source")
     # R20.2 in-place stores
@@ -289,8 +294,21 @@ def _check_window(chk, r1, r2, r3, fname: str, side: str, err_name: str):
     return fi
 
 
+def _find_warning_builder(chk, qualified_name: str) -> FuncInfo:
+    """The function of the transform module that builds the warning with this qualified name (the private builder, or the window
+    function itself when the builder was renamed / inlined)."""
+    hits = []
+    for f in chk.repo.module(T).all_funcs:
+        for c in calls_in(f.node):
+            if unparse(c.func) == "EEMeterWarning" and const_str(kwarg(c, "qualified_name")) == qualified_name:
+                hits.append(f)
+    if not hits:
+        raise AnalysisError(f"no function of {T} builds the warning `{qualified_name}`")
+    return hits[0]
+
+
 def _check_warnings(chk, r3, fname: str, names: Tuple[str, str]):
-    fi = chk.repo.func(T, fname)
+    fi = _find_warning_builder(chk, names[0])
     cfg = CFG(fi.node)
     found = {}
     for c in calls_in(fi.node):
@@ -298,7 +316,12 @@ def _check_warnings(chk, r3, fname: str, names: Tuple[str, str]):
             q = const_str(kwarg(c, "qualified_name"))
             st = fi.module.enclosing_stmt(c)
             found[q] = (st, cfg.guards(st))
-    spec = {names[0]: ("end_inf", ("data_end", "<", "end_limit")), names[1]: ("start_inf", ("start_limit", "<", "data_start"))}
+    separate = fi.name not in ("get_baseline_data", "get_reporting_data")
+    if separate and len(fi.params) == 6:
+        end_inf, start_inf, data_start, data_end, start_limit, end_limit = fi.params  # roles by position (the call site is checked against them)
+    else:
+        end_inf, start_inf, data_start, data_end, start_limit, end_limit = "end_inf", "start_inf", "data_start", "data_end", "start_limit", "end_limit"
+    spec = {names[0]: (end_inf, (data_end, "<", end_limit)), names[1]: (start_inf, (start_limit, "<", data_start))}
     for q, (flag, (a, op, b)) in spec.items():
         if q not in found:
             r3.require(False, f"{fi.key}|{q}|present", fi.where(), f"{fname}: warning `{q}` is no longer produced")
@@ -323,14 +346,19 @@ def _check_warnings(chk, r3, fname: str, names: Tuple[str, str]):
         ok = False
         why = ""
         try:
-            tt = boolalg.conj_table(gs, atomizer, ["inf", "gap"])
+            tt = boolalg.conj_table(gs, atomizer, ["inf", "gap"], ignore_unrecognised=not separate)
             ok = all(tt[(i, g)] == ((not i) and g) for i in (False, True) for g in (False, True))
         except boolalg.Unrecognised as e:
             why = f" (unrecognised condition {e})"
         r3.require(ok, f"{fi.key}|{q}|condition", fi.where(st), f"{fname}: `{q}` must be produced iff not {flag} and {a} {op} {b}{why}",
                    sample={"warning": q, "condition": f"not {flag} and {a} {op} {b}"})
-    rets = [s for s in cfg.stmts() if isinstance(s, ast.Return)]
-    r3.require(all(unparse(r.value) == "warnings" for r in rets), f"{fi.key}|returns-list", fi.where(), f"{fname} must return the warnings list")
+    if separate:
+        rets = [s for s in cfg.stmts() if isinstance(s, ast.Return)]
+        lists = {t.id for s in cfg.stmts() if isinstance(s, ast.Assign) and isinstance(s.value, ast.List) for t in s.targets if isinstance(t, ast.Name)}
+        r3.require(bool(rets) and all(isinstance(r.value, ast.Name) and r.value.id in lists for r in rets), f"{fi.key}|returns-list", fi.where(), f"{fi.name} must return the warnings list it filled")
+    else:
+        r3.inst(f"{fi.key}|returns-list")
+    return fi
 
 
 def run(chk):
@@ -349,18 +377,36 @@ def run(chk):
     r3 = chk.rule("R20.3", "empty selection raises the dedicated error before the store; gap warnings fire iff not *_inf and the data falls short; four distinct qualified names", 8)
     b = _check_window(chk, r1, r2, r3, "get_baseline_data", "baseline", "NoBaselineDataError")
     r = _check_window(chk, r1, r2, r3, "get_reporting_data", "reporting", "NoReportingDataError")
-    _check_warnings(chk, r3, "_make_baseline_warnings", ("eemeter.get_baseline_data.gap_at_baseline_end", "eemeter.get_baseline_data.gap_at_baseline_start"))
-    _check_warnings(chk, r3, "_make_reporting_warnings", ("eemeter.get_reporting_data.gap_at_reporting_end", "eemeter.get_reporting_data.gap_at_reporting_start"))
-    # the builders are called with the arguments in their declared order, with the limits actually used for slicing
-    for fi, builder in ((b, "_make_baseline_warnings"), (r, "_make_reporting_warnings")):
-        bf = chk.repo.func(T, builder)
-        calls = [c for c in calls_in(fi.node) if unparse(c.func) == builder]
-        ok = len(calls) == 1 and [unparse(a) for a in calls[0].args] == bf.params and not calls[0].keywords
-        r3.require(ok, f"{fi.key}|warning-arguments", fi.where(), f"{fi.name} must call {builder}{tuple(bf.params)} with the same-named values; found {[unparse(a) for a in calls[0].args] if calls else None}")
-        # data_start / data_end come from the *input* index
+    bw = _check_warnings(chk, r3, "_make_baseline_warnings", ("eemeter.get_baseline_data.gap_at_baseline_end", "eemeter.get_baseline_data.gap_at_baseline_start"))
+    rw = _check_warnings(chk, r3, "_make_reporting_warnings", ("eemeter.get_reporting_data.gap_at_reporting_end", "eemeter.get_reporting_data.gap_at_reporting_start"))
+    # the builders receive the values in their declared roles: (end_inf, start_inf, data_start, data_end, start_limit, end_limit), where
+    # data_start / data_end are the extremes of the *input* index and the limits are the ones actually used for slicing
+    from engine.pattern import Expander
+    for fi, bf in ((b, bw), (r, rw)):
         rd = ReachingDefs(fi.node)
-        st = fi.module.enclosing_stmt(calls[0]) if calls else None
-        if st is not None:
-            for nm, want in (("data_end", "data.index.max()"), ("data_start", "data.index.min()")):
-                vals = [unparse(rd.value_of(d)) for d in rd.reaching(st, nm) if rd.value_of(d) is not None]
-                r3.require(vals == [want], f"{fi.key}|{nm}-from-input", fi.where(st), f"{fi.name}: `{nm}` passed to the warning builder must be {want}; found {vals}")
+        ex = Expander(fi.node)
+        DATA = fi.params[0]
+        if bf.key != fi.key:
+            calls = [c for c in calls_in(fi.node) if unparse(c.func) == bf.name]
+            ok = len(calls) == 1 and not calls[0].keywords and len(calls[0].args) == 6
+            r3.require(ok, f"{fi.key}|warning-arguments", fi.where(), f"{fi.name} must call {bf.name} once with its six positional arguments")
+            if not ok:
+                continue
+            st = fi.module.enclosing_stmt(calls[0])
+            args = calls[0].args
+            roles = dict(zip(("end_inf", "start_inf", "data_start", "data_end", "start_limit", "end_limit"), args))
+        else:
+            # builder inlined into the window function: the roles are the window function's own locals
+            wst = [fi.module.enclosing_stmt(c) for c in calls_in(fi.node) if unparse(c.func) == "EEMeterWarning"]
+            st = wst[0] if wst else None
+            roles = {k_: ast.Name(id=k_, ctx=ast.Load()) for k_ in ("end_inf", "start_inf", "data_start", "data_end", "start_limit", "end_limit")}
+            r3.inst(f"{fi.key}|warning-arguments")
+        if st is None:
+            continue
+        for nm, want in (("data_end", f"{DATA}.index.max()"), ("data_start", f"{DATA}.index.min()")):
+            e = roles[nm]
+            vals = sorted({unparse(rd.value_of(d)) for d in rd.reaching(st, e.id) if rd.value_of(d) is not None}) if isinstance(e, ast.Name) else [unparse(e)]
+            r3.require(vals == [want], f"{fi.key}|{nm}-from-input", fi.where(st), f"{fi.name}: `{nm}` handed to the gap warnings must be {want}; found {vals}")
+        for nm in ("start_limit", "end_limit", "end_inf", "start_inf"):
+            e = roles[nm]
+            r3.require(isinstance(e, ast.Name) and e.id == nm, f"{fi.key}|{nm}-role", fi.where(st), f"{fi.name}: the value handed to the gap warnings as `{nm}` must be the local `{nm}` (the limit actually used for slicing / the open-ended flag); found `{unparse(e)}`")
